@@ -221,7 +221,7 @@ def triple (c : Ctx) (e : Out (FRes Entry)) (d : Out (FRes DataEntry)) (dd : Out
 def refDigest (c : Ctx) (b : Ref) : String := s!"{c.rf b}#{digest (bytesAt c.r.sec b.off b.len)}"
 
 def run (c : Ctx) (a : List String) : String :=
-  let a := a.filter fun x => x != "" && !x.startsWith "want="
+  let a := a.filter fun x => x != "" && !x.startsWith "want=" && !x.startsWith "tree="
   let r := c.r
   match a with
   | [] | ["all"] =>
